@@ -1459,6 +1459,22 @@ let run_delprog (path : string) =
                let prog = publish_prog !st.s in
                print_endline (Printf.sprintf "delprog %d %s" !opidx (String.concat " ; " (List.concat (List.map render prog))))
              end);
+           (* C06: the write / fsync / create steps of Publish, Sync and Close according to Durable.v *)
+           (let kinds = (match f.(0) with
+               | "pub" when Array.length f > 1 ->
+                 Some (publish_kinds !st.s (List.map parse_msg (List.tl (Array.to_list f))))
+               | "sync" | "close" -> Some (sync_kinds !st.s)
+               | _ -> None) in
+            match kinds with
+            | None -> ()
+            | Some ks ->
+              let (ops, _) = kinds_ops (head_base !st.s) ks in
+              let fn = function FLog b -> pad b ^ ".log" | FIdx b -> pad b ^ ".index" in
+              let render_d = function
+                | DCreate (f, n) -> Printf.sprintf "create %s %s" (fn f) (string_of_z n)
+                | DWrite (f, n) -> Printf.sprintf "write %s %s" (fn f) (string_of_z n)
+                | DFsync f -> "fsync " ^ fn f in
+              print_endline (Printf.sprintf "dprog %d %s" !opidx (String.concat " ; " (List.map render_d ops))));
            ignore (step !st f);
            incr opidx
          end
